@@ -46,7 +46,7 @@ Definition e_pat (p : pat) : sexp :=
 Definition e_sc (s : sc) : sexp := L [e_str (sc_rest s); A (sc_line s); e_nat (sc_pos s)].
 
 (* 1: Parser().parse_string(text) in strict, non-strict and capture mode
-   8: capture-mode readings of x+bad+y, x+y, x        9: capture-mode reading (C01)
+   8: capture-mode readings of x+bad+y, x+y, x        9, 10: capture-mode reading (10: of a rendering, C01)   11: low-level commands of a rendering
    2: list(LowLevelParser(text)) with the same error handler
    3: normalize_whitespace     4: pattern.match(text)      5: month_names
    6: get_token(patterns) on a scanner at (text, lineno 1)
@@ -67,7 +67,8 @@ Definition dispatch (fn : Z) (a : sexp) : sexp :=
   | 8%Z => let x := d_str (d_nth a 0) in let bad := d_str (d_nth a 1) in let y := d_str (d_nth a 2) in
            L [e_out e_db (parse_bib Capture (x ++ bad ++ y)); e_out e_db (parse_bib Capture (x ++ y));
               e_out e_db (parse_bib Capture x)]
-  | 9%Z => e_out e_db (parse_bib Capture (d_str (d_nth a 0)))
+  | 9%Z | 10%Z => e_out e_db (parse_bib Capture (d_str (d_nth a 0)))
+  | 11%Z => e_out e_low (lowlevel Capture (d_str (d_nth a 0)))
   | _ => L []
   end.
 
